@@ -83,6 +83,19 @@ def csBodyMonitor (env : CsEnv) (cfg : CsCfg) (req : CsReq) (obs : Resp) : Optio
     | .error _ => none
   else none
 
+/-- the covering clause evaluated on the bytes the handler READ (not on the bytes that were sent): whatever went through the
+verifier between "the handler was entered" and "the handler read its body", an unencrypted verified request's handler reads
+bytes whose digest the covering signature signs -/
+def csReadMonitor (env : CsEnv) (cfg : CsCfg) (req : CsReq) (obs : Resp) : Option String :=
+  if cfg.strict ∧ obs.ran ∧ gatedMethods.contains req.method ∧ req.uri.isEmpty then
+    match parseContentSecurity env req with
+    | .ok h =>
+      if h.contentType ≠ 1 ∧ !csCovers env cfg { req with body := obs.seen } then
+        some "cs: the handler ran on a body that is not the body the covering signature digests"
+      else none
+    | .error _ => none
+  else none
+
 /-! ## encrypted bodies -/
 
 /-- the client encrypted payload `p` properly: `raw = base64 (E (pad p))` for a whole, non-empty body -/
